@@ -3,7 +3,7 @@
    run guarantees, that the library's own path check and status constructor mean what the rule assumes, and that the
    single-tree planner skeleton can only produce admissible reports — for every history of extension attempts. *)
 From Coq Require Import List ZArith Bool.
-From OmplV Require Import LedgerModel LedgerProofs MotionModel MotionProofs EitModel EitProofs.
+From OmplV Require Import LedgerModel LedgerProofs MotionModel MotionProofs EitModel EitProofs RrtModel RrtProofs.
 Import ListNotations.
 Local Open Scope Z_scope.
 
@@ -52,6 +52,30 @@ Proof. exact whitelisted_edge_fully_tested. Qed.
 Theorem C01_eitstar_walk_visits_every_index_once : forall c, (1 <= c)%nat -> Permutation.Permutation (order c) (seq 1 c).
 Proof. exact order_perm. Qed.
 
+(* geometric::RRT as a whole (RrtModel.rrt_solve: goal-biased sampling, linear nearest neighbour, steering at maxDistance,
+   motion check, goal test, exact / approximate bookkeeping, path extraction), for every space (distance, interpolation),
+   motion validator, goal, stream of goal-bias draws and stream of samples: every tree node beyond the start states hangs
+   off an earlier node by a motion the validator accepted; a reported path starts at a start state, consists of accepted
+   motions only, and ends in an added state whose goal distance is the reported difference; an exact report ends in a state
+   the goal accepts; an approximate report ends in a state the goal does not accept and that no added state beats;
+   nothing is reported only when nothing was ever added *)
+Theorem C01_rrt_reports_only_real_paths :
+  forall (St D : Type) dist (dlt : D -> D -> bool) steer mv sat gdist goal_state (dflt : St),
+  (forall a b c, dlt a b = true -> dlt b c = true -> dlt a c = true) -> (forall a, dlt a a = false) ->
+  forall starts hits samples, starts <> [] ->
+  let tree := fst (rrt_solve St D dist dlt steer mv sat gdist goal_state dflt starts hits samples) in
+  TInv St mv (length starts) starts tree /\
+  match snd (rrt_solve St D dist dlt steer mv sat gdist goal_state dflt starts hits samples) with
+  | Some (path, approx, dd) =>
+      path <> [] /\ In (hd dflt path) starts /\ consecutive (fun a b => mv a b = true) path /\ dd = gdist (last path dflt) /\
+      (exists i, (length starts <= i < length tree)%nat /\ last path dflt = state_at St dflt tree i) /\
+      (if approx then sat (last path dflt) = false /\ forall j, (length starts <= j < length tree)%nat -> dlt (gdist (state_at St dflt tree j)) dd = false
+       else sat (last path dflt) = true)
+  | None => tree = map (fun x => (x, None)) starts
+  end.
+Proof. exact rrt_solve_spec. Qed.
+
+Print Assumptions C01_rrt_reports_only_real_paths.
 Print Assumptions C01_admission_sound.
 Print Assumptions C01_status_constructor.
 Print Assumptions C01_path_check_meaning.
@@ -81,3 +105,13 @@ Example C01_eitstar_orig_refuted :
   existsb (fun p => Nat.ltb (fst p * 5) (snd p)) (fst (history_orig 30 0 (schedule 4 3 30))) = false /\
   covered_within 1 30 (fst (history 30 0 (schedule 4 3 30))) = true.
 Proof. vm_compute. repeat split; reflexivity. Qed.
+
+(* RRT on the integer line: distance |a - b|, steps of at most 3, a wall between 6 and 7, goal 10 (threshold 0) *)
+Definition zsteer (n r : Z) : Z := if (3 <? Z.abs (r - n))%Z then (if (n <? r)%Z then n + 3 else n - 3)%Z else r.
+Definition zmv (a b : Z) : bool := negb ((Z.min a b <=? 6) && (7 <=? Z.max a b))%Z.
+Example C01_rrt_nonvacuous :
+  rrt_solve Z Z (fun a b => Z.abs (a - b)) Z.ltb zsteer zmv (fun s => (s =? 10)%Z) (fun s => Z.abs (s - 10)) 10%Z 0%Z [0%Z] [false; false; true; false] [5; 2; 20]%Z
+    = ([(0%Z, None); (3%Z, Some 0%nat); (2%Z, Some 1%nat); (6%Z, Some 1%nat)], Some ([0; 3; 6]%Z, true, 4%Z)) /\
+  rrt_solve Z Z (fun a b => Z.abs (a - b)) Z.ltb zsteer zmv (fun s => (s =? 10)%Z) (fun s => Z.abs (s - 10)) 10%Z 0%Z [8%Z] [false; true] [20; 0]%Z
+    = ([(8%Z, None); (11%Z, Some 0%nat); (10%Z, Some 1%nat)], Some ([8; 11; 10]%Z, false, 0%Z)).
+Proof. vm_compute. split; reflexivity. Qed.
